@@ -308,7 +308,8 @@ func (d Decimal) Mod(input Decimal) Decimal {
 
 // ToProtoDecimal returns the proto Decimal representation of decimal.
 func (d Decimal) ToProtoDecimal() *dtpb.Decimal {
-	return fhir.Decimal(decimal.Decimal(d).InexactFloat64())
+	// FHIR decimals are arbitrary-precision strings: no detour through float64.
+	return &dtpb.Decimal{Value: decimal.Decimal(d).String()}
 }
 
 // Round rounds a Decimal at the provided precision.
